@@ -248,8 +248,12 @@ def lean_str(s):
             out.append('\\r')
         elif 0x20 <= o < 0x7f:
             out.append(c)
+        elif o < 0x100:
+            out.append('\\x%02x' % o)
+        elif o <= 0xffff:
+            out.append('\\u%04x' % o)
         else:
-            out.append('\\u{%x}' % o)
+            out.append(c)           # Lean sources are UTF-8: a character beyond the BMP stands for itself
     out.append('"')
     return ''.join(out)
 
